@@ -195,6 +195,16 @@ def selOfBasic (n : Nat) : Item → Except Err Sel
   | .list _ => .ok (.lst [])
   | it => selOf n it
 
+def Item.isEmptyList : Item → Bool
+  | .list [] => true
+  | _ => false
+
+/-- second phase: list entries are bounds-checked — unless some list is empty: the broadcast
+index then has size 0 and NumPy skips the check (`PyArray_MapIterCheckIndices`) -/
+def selOf2 (unchecked : Bool) (n : Nat) : Item → Except Err Sel
+  | .list is => if unchecked then .ok (.lst (is.map fun _ => 0)) else selOf n (.list is)
+  | it => selOf n it
+
 def plan (shape : List Nat) (ix : List Item) : Except Err Plan :=
   match expandItems shape.length ix with
   | .error e => .error e
@@ -205,7 +215,8 @@ def plan (shape : List Nat) (ix : List Item) : Except Err Plan :=
     match mapMExcept (fun (p : Nat × Item) => selOfBasic p.1 p.2) (shape.zip its) with
     | .error e => .error e
     | .ok _ =>
-    match mapMExcept (fun (p : Nat × Item) => selOf p.1 p.2) (shape.zip its) with
+    match mapMExcept (fun (p : Nat × Item) => selOf2 (its.any Item.isEmptyList) p.1 p.2)
+        (shape.zip its) with
     | .error e => .error e
     | .ok sels =>
       match lstLens sels with
